@@ -260,13 +260,14 @@ PROPS = {
         "assumptions": COMMON_ASSUME,
     },
     "C19": {
-        "claim": "Over the wire schemas and version string tables translated from the source on every run, Lean proves: no member set is admitted by two predicate formats or by two statement formats (so an accepted document is exactly one format version), the string tables are mutually inverse, and a decoded v0.1 statement's declared type is the version of the contained predicate. Round trips (canonical form parses back equal and byte-identical, timestamps keep instant and sub-second part), declared-type consistency and merge are checked on the real code for generated documents with every optional-field subset and every declared type string.",
-        "level_note": "Trusted: Lean kernel; translate/schema.py (fails closed); serde-derive's field handling (required / deny_unknown_fields) as encoded in Model/Attest.lean; chrono for timestamps (oracle only).",
-        "technique": "Lean 4 theorems (decide over tables translated from the Rust source + a generic disjointness lemma) + round-trip / consistency oracle on the implementation",
+        "lean_modules": ["InTotoModel.Props.C19", "InTotoModel.Props.C19Codec"],
+        "claim": "Over the wire schemas (member names, field types, optionality, skip_serializing_if, deny_unknown_fields), the version string tables, the version detection order and the StateV01 consistency check, all translated from the source on every run, Lean proves: no member set is admitted by two predicate formats or by two statement formats (an accepted document is exactly one format version); the string tables are mutually inverse; a decoded v0.1 statement's declared type is the version of the contained predicate; and - for a codec generic in those schemas (Model/AttestCodec.lean) - decoding the encoding of every well-typed value returns it, for every field type and, through the untagged wrappers' version detection, for whole predicates and statements (the first accepting format is the value's own because the formats are disjoint). The codec model is compared with the real (de)serialisers on valid, mutated and re-notated documents (att_dec); round trips (canonical form parses back equal and byte-identical, timestamps keep instant and sub-second part), declared-type consistency and merge are also checked directly on the real code.",
+        "level_note": "Trusted: Lean kernel; translate/schema.py (fails closed on any struct, field type, table or loop it cannot read); serde-derive's field handling as encoded in Model/AttestCodec.lean (validated by the att_dec differential incl. mutations); member types modelled elsewhere enter in normal form (artifact maps, commands, byproducts: Model/Codec.lean, Model/Wire.lean; timestamps: Model/Time.lean).",
+        "technique": "Lean 4 theorems over tables translated from the Rust source on every run (kernel-checked well-formedness + generic round-trip and disjointness theorems) + model/implementation correspondence check + round-trip / consistency oracle on the implementation",
         "translate": "schema.py",
-        "rule": "cases = generated Link v0.2 / SLSA v0.1 / v0.2 predicates, naive and v0.1 statements (declared type matching or not), perturbed documents, and links merged into statements; ops = pred_fmt / stmt_fmt (format candidates by member names) and the version string tables; distinct = distinct op; non-trivial = the document is accepted",
-        "trusted_base": ["serde-derive semantics for required / unknown members (Model/Attest.lean `admits`)", "chrono RFC 3339 parsing / printing (oracle only)"],
-        "partial": ["value-level round trip, timestamp preservation and merge are oracle-only (serde-derive and chrono are not modelled field by field)"],
+        "rule": "cases = generated Link v0.2 / SLSA v0.1 / v0.2 predicates, naive and v0.1 statements (declared type matching or not), perturbed and mutated documents (any node: member deleted / renamed / added, value of another shape, damaged string or number), timestamps in every RFC 3339 notation and invalid ones, and links merged into statements; ops = att_dec (decode through the untagged wrapper and write again), pred_fmt / stmt_fmt (format candidates by member names) and the version string tables; distinct = distinct op; non-trivial = the document is an object",
+        "trusted_base": ["serde-derive semantics for struct members (Model/AttestCodec.lean; att_dec differential)", "chrono RFC 3339 parsing / AutoSi printing as modelled in Model/Time.lean (att_dec and timestamp ops)"],
+        "partial": ["the normal-form property of timestamps (reading what AutoSi writes) is validated differentially, not proved; merge (from_meta) is oracle-only"],
         "assumptions": COMMON_ASSUME,
     },
     "C20": {
